@@ -115,3 +115,36 @@ def group_events(rng):
             evs.append({"ev": "group", "member": member, "from_state": [repr(float(x)) for x in fs],
                         "direct": [repr(float(x)) for x in dr]})
     return evs
+
+
+def var_graph_events(rng, n=40):
+    """Real models from random programs: Var.all_input_vars / all_output_vars and the model's graphs
+    against the construction plan."""
+    from .logprob_driver import ProgramRun, gen_program
+
+    evs = []
+    for _ in range(n):
+        plan = gen_program(rng, rng.randint(2, 4))
+        run = ProgramRun(plan)
+        own = [0] * len(plan)
+        for src, var in run.vars.items():
+            own[src - 1] = src
+            for j, p in enumerate(plan, start=1):
+                if p["kind"] == "p" and p["inp"] == [src]:
+                    own[j - 1] = src
+                    for k, q in enumerate(plan, start=1):
+                        if q["kind"] in ("d", "e") and q.get("has_var") and q["inp"][-1] == j:
+                            own[k - 1] = src
+        idx = {f"n{i}": i for i in range(1, len(plan) + 1)}
+        vid = {f"var{src}": src for src in run.vars}
+        m = run.model
+        iv = [[] for _ in plan]
+        ov = [[] for _ in plan]
+        for name, src in vid.items():
+            iv[src - 1] = sorted(vid[v.name] for v in m.vars[name].all_input_vars())
+            ov[src - 1] = sorted(vid[v.name] for v in m.vars[name].all_output_vars())
+        edges = sorted([vid[a.name], vid[b.name]] for a, b in m.var_graph.edges)
+        nedges = sorted([idx[a.name], idx[b.name]] for a, b in m.node_graph.edges if a.name in idx and b.name in idx)
+        evs.append({"ev": "var_graph", "inp": [p["inp"] for p in plan], "own": own, "input_vars": iv, "output_vars": ov,
+                    "edges": edges, "node_edges": nedges})
+    return evs
